@@ -7,6 +7,7 @@ from rules import misc as M
 def run(ctx):
     T.tbl8_event_buffer_codec(ctx)
     T.tbl10_response_codec(ctx)
+    T.tbl12_xor_stream_fields(ctx)
     W.wid3_response_layouts(ctx)
     W.flw12_widen_before_subtract(ctx)
     M.lit1_null_patterns(ctx)
